@@ -692,7 +692,8 @@ Print Assumptions C02_static_from_metadata.
    files written).  Generated statement by statement: thread_metadata_store, ovni_thread_require, thread_metadata_populate,
    thread_metadata_init, set_thread_rank, ovni_add_cpu, ovni_proc_set_rank, get_thread_metadata, ovni_attr_has,
    ovni_attr_set_double / boolean / str / json, ovni_attr_get_double / boolean / str / json, ovni_attr_flush, ovni_thread_free.
-   Primitive: set_thread_cpus (for loop), the calls outside the metadata state.
+   set_thread_cpus (a counted for loop) as an instance of array_of_list_loop; ovni_thread_init, ovni_proc_init.
+   Primitive: the calls outside the metadata state.
 
    rs_of s th node out = the view thread th has of the model state s (rproc, its rthread, files written); `agrees` = die()
    iff the model's step is ODie, and a return iff ODone with the view of the NEW model state, the file written appended
@@ -701,9 +702,9 @@ Print Assumptions C02_static_from_metadata.
    ovni_attr_has, ovni_attr_get_* (4), ovni_attr_flush (with thread_metadata_store, get_thread_metadata), ovni_thread_free
    (against free_tree: rank, loom_cpus, ovni.finished = 1, then the store, then finished / ready), and the metadata part of
    ovni_thread_init (thread_metadata_init with thread_metadata_populate and the store, rthread.ready = 1, the implicit
-   require of "ovni") against the ThreadInit case.  Hand-written around the generated code: the head of ovni_thread_init
-   (guards, memset, tid: init_view) and the sequencing of its three generated pieces (src_thread_init_meta);
-   set_thread_cpus and the calls outside the metadata state are primitives of RtMetaPre.v. *)
+   require of "ovni") against the ThreadInit case.  ovni_thread_init (whole: C02_thread_init_from_source) and ovni_proc_init (C02_proc_init_from_source) are generated too.
+   Primitives of RtMetaPre.v: the generic counted-loop fold array_of_list_loop (set_thread_cpus is generated as an instance of it:
+   C02_set_thread_cpus_from_source) and the calls outside the metadata state. *)
 From OV Require Rt.RtMetaPre Gen.RtMeta_gen Proofs.RtMetaGenProofs.
 Module MetaSrc.
 Import RtMetaDefs RtMetaPre RtMeta_gen RtMetaGenProofs.
@@ -737,6 +738,33 @@ Theorem C02_thread_init_metadata_from_source : forall sx s th tid node out,
   agrees sx th out (src_thread_init_meta sx (init_view s tid node out)) (step src_cfg s th (ThreadInit tid)) no_val.
 Proof. exact thread_init_step_from_source. Qed.
 Print Assumptions C02_thread_init_metadata_from_source.
+
+(* set_thread_cpus (the only loop of the metadata functions) is accepted by the translator in one exact counted shape only and
+   rendered, with the key "ovni.loom_cpus", the member names "index" / "phyid", their order and the field read for each
+   taken from the C text, as an instance of the generic array_of_list_loop of RtMetaPre.v; that instance is the fold the
+   model's free_tree writes (map cpu_json over the registered CPUs in order, stored under ovni.loom_cpus, die() on
+   failure).  ovni_thread_free above calls this generated function: the special primitive is gone. *)
+Theorem C02_set_thread_cpus_from_source : forall sx st fs,
+  r_meta st = Some fs -> set_thread_cpus (Some tt) sx st = set_thread_cpus_fold (Some tt) sx st.
+Proof. exact set_thread_cpus_from_source. Qed.
+Print Assumptions C02_set_thread_cpus_from_source.
+
+(* the WHOLE ovni_thread_init as generated (guards on rthread.ready / finished, tid, rproc.st; memset(&rthread, 0, ..) as
+   zero_rthread; the tid; the buffer / stream calls as primitives outside the metadata state; thread_metadata_init; ready;
+   the implicit require) = the model's ThreadInit case, refusals included: already initialised (ignored with a warning),
+   finished, tid 0, process not ready.  The sequencing is generated, no longer written by hand. *)
+Theorem C02_thread_init_from_source : forall sx s th tid node out,
+  path_ok sx tid = true ->
+  agrees sx th out (ovni_thread_init tid sx (rs_of s th node out)) (step src_cfg s th (ThreadInit tid)) no_val.
+Proof. exact thread_init_from_source. Qed.
+Print Assumptions C02_thread_init_from_source.
+
+(* ovni_proc_init as generated (the compare-exchange on rproc.st executed by one thread - racing callers are unit rtconc's -
+   with its three refusals, the loom-name length check, strcpy / pid / app, READY) = the model's ProcInit case *)
+Theorem C02_proc_init_from_source : forall sx s th node out app loom pid,
+  agrees sx th out (ovni_proc_init app (Some loom) pid sx (rs_of s th node out)) (step src_cfg s th (ProcInit app loom pid)) no_val.
+Proof. exact proc_init_from_source. Qed.
+Print Assumptions C02_proc_init_from_source.
 
 (* the model's constants are those of the source: the theorems above are instantiated at src_cfg, whose model version
    parses (hypothesis of C02_metadata_complete) *)
